@@ -506,6 +506,12 @@ func Elt(off, i *Term) *Term {
 	if off.isInt() && i.isInt() {
 		return Add(off, i)
 	}
+	// normal form: the window base stays the leftmost summand of the offset, the rest moves into the index, so that an
+	// element of a sub-slice s[a:b] is written elt(off(s), a+i) and matches quantified facts about s (pattern elt(off(s), k))
+	for off.op == "+" && len(off.args) == 2 && !off.args[0].isInt() {
+		i = Add(off.args[1], i)
+		off = off.args[0]
+	}
 	return App("elt", SInt, off, i)
 }
 
